@@ -24,9 +24,9 @@ Definition d26_key : bytes := [97; 3; 12].
 Lemma d26_old_get_panics :
   Forall entry_ok d26_es /\ keys_sorted d26_es = true /\ blen (ser_entries d26_es) < 4294967296 /\
   find_key d26_key d26_es = None /\
-  bf_might_have (bloom_of d26_es) d26_key = true /\
-  table_get_old (write_table d26_es) d26_key = GPanic /\
-  table_get (write_table d26_es) d26_key = GNotFound.
+  bf_might_have (bloom_of default_params d26_es) d26_key = true /\
+  table_get_old (write_table default_params d26_es) d26_key = GPanic /\
+  table_get (write_table default_params d26_es) d26_key = GNotFound.
 Proof.
   split; [apply entry_okb_ok; vm_compute; reflexivity|].
   split; [vm_compute; reflexivity|].
@@ -38,7 +38,7 @@ Qed.
 
 Lemma old_get_panics_before_first_key :
   exists es key, Forall entry_ok es /\ keys_sorted es = true /\ blen (ser_entries es) < 4294967296 /\
-                 find_key key es = None /\ table_get_old (write_table es) key = GPanic.
+                 find_key key es = None /\ table_get_old (write_table default_params es) key = GPanic.
 Proof.
   exists d26_es, d26_key. destruct d26_old_get_panics as (H1 & H2 & H3 & H4 & _ & H6 & _).
   split; [exact H1|]. split; [exact H2|]. split; [exact H3|]. split; [exact H4|exact H6].
